@@ -18,7 +18,8 @@ from mistral.services import adhoc_actions
 
 OVERRIDES = [('auth_enable', True, 'pecan'),
              ('enabled', False, 'cron_trigger'),
-             ('allow_action_execution_deletion', True, 'api')]
+             ('allow_action_execution_deletion', True, 'api'),
+             ('validation_mode', 'enabled', 'api')]
 NAME = 'r1'
 
 CALLERS = {
@@ -123,10 +124,12 @@ class Setup(object):
                     rid, 'workflow', 'M', {'status': self.share}), 'M')
         self.snap = env.raw_conn().serialize()
         self.pre = M.dump(env.raw_conn())
+        self.ids_n = env.Ids.n
         return self
 
     def restore(self):
         env.raw_conn().deserialize(self.snap)
+        env.Ids.n = self.ids_n
         env.auth_context.set_ctx(None)
 
     # -- creation of one row (and what it needs) for one project
@@ -135,14 +138,17 @@ class Setup(object):
         aux = self.aux.setdefault(who, {})
         mk = mark(t, who)
 
-        def reg(m, rid):
+        def reg(m, rid, touch=False):
             self.marks[m] = rid
+            if touch:
+                tx(lambda: db_api.update_workflow_execution(
+                    rid, {'accepted': True}), who)
             return rid
 
         def wf(name=NAME, m=None):
             m = m or mark('workflow', who)
             r = env.with_ctx(lambda: wf_service.create_workflows(
-                WF_YAML % (name, m), scope=scope)[0].id, ctx_of(who))
+                WF_YAML % (name, m), scope=scope, validate=False)[0].id, ctx_of(who))
             return reg(m, r)
 
         def wfex(wf_id):
@@ -156,7 +162,8 @@ class Setup(object):
                                           'version': '2.0'}}},
                 'state': 'SUCCESS', 'input': {'m': m}, 'output': {'m': m},
                 'params': {}, 'context': {'secret': m}, 'scope': scope,
-                'runtime_context': {}, 'tags': []}).id, who))
+                'runtime_context': {}, 'tags': []}).id, who),
+                touch=True)
 
         def taskex(wfex_id, wf_id):
             m = mark('task_ex', who)
@@ -175,7 +182,7 @@ class Setup(object):
         elif t == 'workbook':
             rid = reg(mk, env.with_ctx(
                 lambda: wb_service.create_workbook_v2(
-                    WB_YAML % (NAME, mk, who), scope=scope).id, ctx_of(who)))
+                    WB_YAML % (NAME, mk, who), scope=scope, validate=False).id, ctx_of(who)))
         elif t == 'action':
             rid = reg(mk, tx(lambda: adhoc_actions.create_actions(
                 ACT_YAML % (NAME, mk), scope=scope)[0].id, who))
@@ -296,6 +303,8 @@ class Op(object):
         self.fn, self.variant = fn, variant
         self.id = '%s[%s]' % (fn, variant) if variant else fn
         self.build, self.mode, self.sel = build, mode, sel
+        # argument shapes no product caller builds from tenant input
+        self.synthetic = 'steal' in variant or 'forged' in variant
 
 
 def rows(pre, table, pred):
@@ -308,7 +317,7 @@ def _by_name(s, pre):
 
 
 def _by_id(s, pre):
-    return [(s.table, s.ids['A'])]
+    return [(s.table, s.ids['A'])] if s.ids['A'] in pre[s.table] else []
 
 
 def _all(s, pre):
@@ -392,10 +401,8 @@ def db_ops(s):
 
     def lists(fn, extra=()):
         op(fn, '', lambda c: ((), {}), 'many', _all)
-        if t != 'dynamic_action' or True:
-            op(fn, 'name=eq', lambda c: ((), {'name': {'eq': NAME}}), 'many',
-               lambda s_, pre: rows(pre, s.table,
-                                    lambda r: r['name'] == NAME))
+        op(fn, 'name=eq', lambda c: ((), {'name': {'eq': NAME}}), 'many',
+           lambda s_, pre: rows(pre, s.table, lambda r: r['name'] == NAME))
         op(fn, 'project_id=A', lambda c: ((), {'project_id': 'A'}), 'many',
            _f('project_id', 'A'))
         op(fn, 'id=in', lambda c: ((), {'id': {'in': sorted(
@@ -406,13 +413,8 @@ def db_ops(s):
            _f('scope', 'private'))
         op(fn, 'paged', lambda c: ((), {'limit': 10, 'sort_keys': ['id'],
                                        'sort_dirs': ['asc']}), 'many', _all)
-        if fn not in ('get_action_definitions', 'get_cron_triggers',
-                      'get_action_executions'):
-            op(fn, 'fields', lambda c: ((), {'fields': ['id', 'name']}),
-               'many', _all)
-        else:
-            op(fn, 'fields', lambda c: ((), {'fields': ['id', 'name']}),
-               'many', _all)
+        op(fn, 'fields', lambda c: ((), {'fields': ['id', 'name']}), 'many',
+           _all)
         for variant, kw, sel in extra:
             op(fn, variant, (lambda kw_: lambda c: ((), dict(kw_)))(kw),
                'many', sel)
@@ -426,6 +428,10 @@ def db_ops(s):
     def forge(fn):
         op(fn, 'same-name', lambda c: ((_new_vals(s, c, False),), {}))
         op(fn, 'forged-project', lambda c: ((_new_vals(s, c, True),), {}))
+        if t in ('cron_trigger', 'event_trigger'):
+            # the values carry A's workflow id: the scoped lookup of the
+            # workflow is the job of services.triggers (REST level)
+            ops[-2].synthetic = True
 
     U = lambda c: _vals(s, c)                 # noqa: E731
     US = lambda c: _vals(s, c, steal=True)    # noqa: E731
@@ -561,6 +567,7 @@ def db_ops(s):
            lambda c: ((NAME, US(c)), {}))
         op('create_or_update_cron_trigger', 'name',
            lambda c: ((NAME, U(c)), {}))
+        ops[-1].synthetic = True      # values carry A's workflow id
         lists('get_cron_triggers', [
             ('workflow_id=A', {'workflow_id': wfid},
              _f('workflow_id', wfid))])
@@ -675,6 +682,46 @@ def catalogue_gaps():
         len(covered), len(excl)
 
 
+# ------------------------------------------------------------------ tracing
+TRACE = {'on': None}
+
+
+def _install_trace():
+    import functools
+    for n in api_functions():
+        f = getattr(db_api, n)
+        if getattr(f, '_c15', False):
+            continue
+
+        def mk(f, n):
+            @functools.wraps(f)
+            def w(*a, **kw):
+                if TRACE['on'] is not None:
+                    TRACE['on'].add(n)
+                return f(*a, **kw)
+            w._c15 = True
+            return w
+        setattr(db_api, n, mk(f, n))
+
+
+_install_trace()
+
+
+class Derived(object):
+    """A state reached from a setup by one more operation."""
+
+    def __init__(self, s, first):
+        self.__dict__.update(s.__dict__)
+        self.base, self.first = s, first
+        self.snap = env.raw_conn().serialize()
+        self.pre = M.dump(env.raw_conn())
+        self.ids_n = env.Ids.n
+
+    key = property(lambda self: self.base.key + '+' + self.first)
+    restore = Setup.restore
+    spec = Setup.spec
+
+
 # ------------------------------------------------------------------ runner
 def run_db_op(s, op, who):
     """Execute one db_api call as `who` on the setup state. -> observation"""
@@ -707,6 +754,7 @@ def run_db_op(s, op, who):
                  returned_anything=obs['any'] and not obs['exc'])
     obs['post_hash'] = M.state_hash(post)
     obs['changed'] = post != pre
+    obs['req_ids'] = [i for _, i in (required or [])]
     obs['expect_visible'] = bool(required) and any(
         M.must_see(pre, t, pre[t][i], caller) for t, i in required)
     obs['expect_hidden'] = bool(required) and not any(
